@@ -381,6 +381,10 @@ def run(ctx):
     r03_2_dependency_scan(ctx)
     r03_3_cancellation(ctx)
     r03_4_defaults(ctx)
+    from rules import c02 as _c02, c10 as _c10
+
+    _c02.r02_2_convention(ctx)  # frame_pointers on/off: both conventions bind the same parameters and hand back the same value (shared with C02)
+    _c10.r10_1_assignment(ctx)  # with the slot optimiser off nothing cancels a temporary that was given a user-reserved index (shared with C10)
     return (
         "Abstract evaluation of the slot optimiser's own code (skip-set construction, dependency scan, cancellation + deletion) on abstract block graphs and on all short "
         "op sequences, results compared through an abstract stack machine; defaults table of OptimizeOptions against the documentation; wiring of the optimiser in _compile_impl. "
